@@ -1108,13 +1108,28 @@ def _default_tags(model, rep):
     if len(lams) < 2:
         raise AnalysisError(f"Mesh._build_default_tags: {len(lams)} "
                             f"predicates found")
+    # the vertex named by a coordinate tuple (normalize_nodes): the same
+    # requirement on its predicate
+    nn = model.cls("skfem.mesh.mesh", "Mesh").methods["normalize_nodes"]
+    nlams = [x for x in ast.walk(nn.node) if isinstance(x, ast.Lambda)]
+    if len(nlams) != 1:
+        raise AnalysisError("Mesh.normalize_nodes: point predicate not found")
+    for n in ast.walk(nn.node):
+        if isinstance(n, ast.Assign) and len(n.targets) == 1 and isinstance(
+                n.targets[0], ast.Name):
+            defs.setdefault(n.targets[0].id, n.value)
+    point_par = nn.params()[1]
+    lams = lams + nlams
     for k, lam in enumerate(lams):
         par = lam.args.args[0].arg
 
         def position(e, par=par):
-            return (isinstance(e, ast.Name) and e.id == par) or (
-                isinstance(e, ast.Attribute) and e.attr in ("p", "doflocs")
-                and src(e.value) == "self")
+            return (isinstance(e, ast.Name) and e.id in (par, point_par)) \
+                or (isinstance(e, ast.Attribute) and e.attr in (
+                    "p", "doflocs") and src(e.value) == "self") or (
+                isinstance(e, ast.Call) and src(e.func) in ("list", "tuple")
+                and e.args and isinstance(e.args[0], ast.Name)
+                and e.args[0].id == point_par)
 
         def known(e):
             if isinstance(e, ast.Call) and src(e.func) in (
@@ -1132,9 +1147,43 @@ def _default_tags(model, rep):
                 return ("inv", 0)       # index tables
             if isinstance(e, ast.Call) and src(e.func) == "self.dim":
                 return ("inv", 0)
+            if isinstance(e, ast.Call) and not e.args and isinstance(
+                    e.func, ast.Attribute) and src(e.func.value) == "self":
+                return helper_value(e.func.attr)
             return None
+
+        def helper_value(mname, _cache={}):
+            """value returned by an argument-free helper method of the mesh,
+            evaluated by the same engine (one level)"""
+            if mname in _cache:
+                return _cache[mname]
+            hm = model.cls("skfem.mesh.mesh", "Mesh").find_method(mname)
+            if hm is None:
+                return None
+            from ..invariance import straight_line
+
+            def hpos(x):
+                return isinstance(x, ast.Attribute) and x.attr in (
+                    "p", "doflocs") and src(x.value) == "self"
+
+            def hknown(x):
+                if isinstance(x, ast.Attribute) and src(x.value) == "self" \
+                        and x.attr in ("facets", "edges", "t", "t2f"):
+                    return ("inv", 0)
+                if isinstance(x, ast.Call) and src(x.func) == "self.dim":
+                    return ("inv", 0)
+                return None
+            _, henv, hev = straight_line(hm.node.body, {}, hpos, hknown)
+            rets = [r.value for r in ast.walk(hm.node)
+                    if isinstance(r, ast.Return) and r.value is not None]
+            vals = {hev(r) for r in rets}
+            _cache[mname] = vals.pop() if len(vals) == 1 else (
+                "bad", f"helper {mname} returns values of different kind")
+            return _cache[mname]
         v = make_evaluator(defs, position, known)(lam.body)
-        cons = f"Mesh._build_default_tags:predicate[{k}]:invariant"
+        cons = f"Mesh._build_default_tags:predicate[{k}]:invariant" \
+            if lam not in nlams else \
+            "Mesh.normalize_nodes:point-predicate:invariant"
         if v == ("inv", 0):
             rep.ok(R4, cons, "the side predicate is unchanged by a "
                    "translation of the mesh and a change of unit")
@@ -1195,13 +1244,19 @@ MUTANTS = [
       "                                                             dmin,\n"),
      "C07-R4"),
     ("default side tags with an absolute tolerance of fixed size",
-     (_M, "        atol = np.min(np.linalg.norm(np.diff(self.p[:, ed], "
-      "axis=1),\n                                     axis=0)) / 1e2\n",
+     (_M, "        atol = self._shortest_edge() / 1e2\n",
       "        atol = 1e-8\n"), "C07-R4"),
     ("default side tags with a tolerance from the longest cell edge",
-     (_M, "        atol = np.min(np.linalg.norm(np.diff(self.p[:, ed], "
-      "axis=1),\n                                     axis=0)) / 1e2\n",
+     (_M, "        atol = self._shortest_edge() / 1e2\n",
       "        atol = np.min(self.params()) / 1e2\n"), "C07-R4"),
+    ("vertex named by coordinates matched with an absolute tolerance",
+     (_M, "            tol = 1e-6 * self._shortest_edge()\n",
+      "            tol = 1e-12\n"), "C07-R4"),
+    ("shortest edge measured from the origin",
+     (_M, "        return np.min(np.linalg.norm(np.diff(self.p[:, ed], "
+      "axis=1), axis=0))",
+      "        return np.min(np.linalg.norm(self.p[:, ed][:, 0], axis=0))"),
+     "C07-R4"),
     ("facet selector accepts Python integers only",
      (_M, "        if isinstance(facets, (int, np.integer)):",
       "        if isinstance(facets, int):"), "C07-R4"),
@@ -1343,8 +1398,8 @@ TWINS = [
      (_M, "            w[i] = (f[i] != f[:i]).all(axis=0)",
       "            w[i] = (f[:i] != f[i]).all(axis=0)")),
     ("default side tags with a tolerance of a thousandth of the cell size",
-     (_M, "                                     axis=0)) / 1e2\n",
-      "                                     axis=0)) / 1e3\n")),
+     (_M, "        atol = self._shortest_edge() / 1e2\n",
+      "        atol = self._shortest_edge() / 1e3\n")),
     ("facet selector tests the numeric ABC",
      (_M, "        if isinstance(facets, (int, np.integer)):",
       "        if isinstance(facets, (int, np.integer, np.int64)):")),
